@@ -375,20 +375,20 @@ theorem map_pySort_of_sorted (lists : List (List Int)) (h : ∀ l ∈ lists, l.P
   exact pySort_of_sorted l (h l hl)
 
 /-- in a well-formed tree the merged coordinate lists are strictly ascending -/
-theorem mergeNodes_sorted (dflt : Int) (e : Nat) :
+theorem mergeNodes_sorted (e : Nat) :
     ∀ (depth : Nat) (t : Tree Int Int (e + 2 + depth)), WF (e + 2 + depth) t →
-      ∀ lists ∈ mergeNodes dflt e depth t, ∀ l ∈ lists, l.Pairwise (· < ·) := by
+      ∀ lists ∈ mergeNodes e depth t, ∀ l ∈ lists, l.Pairwise (· < ·) := by
   intro depth
   induction depth with
   | zero =>
     intro (t : List (Int × Tree Int Int (e + 1))) hwf lists hl l hmem
     have hwf' : Sorted t ∧ ∀ el ∈ t, WF (e + 1) el.2 := hwf
-    have hl' : lists = (t.filter (fun el => !isEmpty dflt (e + 1) el.2)).map (fun el => coordsOf (d := e) el.2) := by
-      have : lists ∈ [(t.filter (fun el => !isEmpty dflt (e + 1) el.2)).map (fun el => coordsOf (d := e) el.2)] := hl
+    have hl' : lists = (t.map (fun el => coordsOf (d := e) el.2)).filter (fun l => !l.isEmpty) := by
+      have : lists ∈ [(t.map (fun el => coordsOf (d := e) el.2)).filter (fun l => !l.isEmpty)] := hl
       simpa using this
     rw [hl'] at hmem
-    obtain ⟨el, hel, rfl⟩ := List.mem_map.1 hmem
-    have hs : WF (e + 1) el.2 := hwf'.2 el (List.mem_filter.1 hel).1
+    obtain ⟨el, hel, rfl⟩ := List.mem_map.1 (List.mem_filter.1 hmem).1
+    have hs : WF (e + 1) el.2 := hwf'.2 el hel
     have hs' : Sorted (show List (Int × Tree Int Int e) from el.2) := hs.1
     show ((show List (Int × Tree Int Int e) from el.2).map (·.1)).Pairwise (· < ·)
     rw [List.pairwise_map]
@@ -396,10 +396,9 @@ theorem mergeNodes_sorted (dflt : Int) (e : Nat) :
   | succ depth ih =>
     intro (t : List (Int × Tree Int Int (e + 2 + depth))) hwf lists hl l hmem
     have hwf' : Sorted t ∧ ∀ el ∈ t, WF (e + 2 + depth) el.2 := hwf
-    have hl' : lists ∈ (t.filter (fun el => !isEmpty dflt (e + 2 + depth) el.2)).flatMap
-        (fun el => mergeNodes dflt e depth el.2) := hl
+    have hl' : lists ∈ t.flatMap (fun el => mergeNodes e depth el.2) := hl
     obtain ⟨el, hel, hin⟩ := List.mem_flatMap.1 hl'
-    exact ih el.2 (hwf'.2 el (List.mem_filter.1 hel).1) lists hin l hmem
+    exact ih el.2 (hwf'.2 el hel) lists hin l hmem
 
 theorem c19_wfB_iff : ∀ (d : Nat) (t : Tree Int Int d), wfB d t = true ↔ WF d t := by
   intro d
